@@ -128,8 +128,9 @@ PROPS["C04"] = {
     "jobs": lambda tier: _jobs_store_family(("C04",), "both", "both", tier) + [
         m1(s, "arrivals", 2 if tier == "quick" else 3, 1 if tier == "quick" else 2, ("C04",), 12 if tier == "quick" else 60)
         for s in ("RPRS", "RPRFS", "BUF_FIFO", "BUF_LIFO", "RPRFS_TD", "FLEET", "FLEET0")] + [
-        m1(s, "spaceget", 2, 1 if tier == "quick" else 2, ("C04",), 12 if tier == "quick" else 60) for s in ("RPRS", "BUF_FIFO", "FLEET", "RPRFS_TD")],
-    "required_witnesses": ["C04:pending-put-checked", "C04:pending-get-checked"],
+        m1(s, "spaceget", 2, 1 if tier == "quick" else 2, ("C04",), 12 if tier == "quick" else 60) for s in ("RPRS", "BUF_FIFO", "FLEET", "RPRFS_TD")] + conveyor_jobs(
+        "C04", tier, only=lambda n: n in ("sconv-acc1-2producers", "cconv-acc1-2producers", "sconv-acc1-slow", "cconv-acc1-slow", "cconv-acc0-slow"), budget=10 if tier == "quick" else 60),
+    "required_witnesses": ["C04:pending-put-checked", "C04:pending-get-checked", "C04:belt-checked"],
     "nontrivial_witnesses": ["complete"],
     "twin": twin_m1("BUF_FIFO", "both"),
     "bounds": {"quick": "as C02 plus <=2 outstanding space reservations", "thorough": "as C02 thorough"},
@@ -517,14 +518,14 @@ def conveyor_cfgs(tier):
     return C
 
 
-def conveyor_jobs(pid, tier, only=None):
+def conveyor_jobs(pid, tier, only=None, budget=None):
     jobs = []
     for name, cfg in conveyor_cfgs(tier).items():
         if only and not only(name):
             continue
         kw = dict(cfg)
         kw["props"] = (pid,)
-        jobs.append({"name": "M2/conveyor/" + name, "spec": ("vfy.m2x", "conveyor", kw), "budget_s": 20 if tier == "quick" else 90, "bounds": str(cfg),
+        jobs.append({"name": "M2/conveyor/" + name, "spec": ("vfy.m2x", "conveyor", kw), "budget_s": budget or (20 if tier == "quick" else 90), "bounds": str(cfg),
                      "validate_every": 25})
     return jobs
 
